@@ -7,6 +7,10 @@ type nat =
 
 val option_map : ('a1 -> 'a2) -> 'a1 option -> 'a2 option
 
+type ('a, 'b) sum =
+| Inl of 'a
+| Inr of 'b
+
 val fst : ('a1 * 'a2) -> 'a1
 
 val snd : ('a1 * 'a2) -> 'a2
@@ -23,6 +27,8 @@ type comparison =
 val compOpp : comparison -> comparison
 
 val add : nat -> nat -> nat
+
+val mul : nat -> nat -> nat
 
 val sub : nat -> nat -> nat
 
@@ -387,6 +393,8 @@ module N :
 
   val double : n -> n
 
+  val pred : n -> n
+
   val succ_pos : n -> positive
 
   val add : n -> n -> n
@@ -403,6 +411,8 @@ module N :
 
   val ltb : n -> n -> bool
 
+  val min : n -> n -> n
+
   val pow : n -> n -> n
 
   val pos_div_eucl : positive -> n -> n * n
@@ -418,6 +428,10 @@ module N :
   val ldiff : n -> n -> n
 
   val coq_lxor : n -> n -> n
+
+  val to_nat : n -> nat
+
+  val of_nat : nat -> n
  end
 
 module Z :
@@ -478,6 +492,8 @@ module Z :
 val nth_error : 'a1 list -> nat -> 'a1 option
 
 val rev : 'a1 list -> 'a1 list
+
+val concat : 'a1 list list -> 'a1 list
 
 val map : ('a1 -> 'a2) -> 'a1 list -> 'a2 list
 
@@ -1011,3 +1027,163 @@ val strict_head : bytes -> (shead * nat) option
 val field_value : bytes -> bytes
 
 val sfield_pairs : sfield list -> (bytes * bytes) list
+
+val in_rng : byte -> n -> n -> bool
+
+val cont : byte -> bool
+
+val utf8_valid : bytes -> bool
+
+val bUF_SIZE : n
+
+val firstnN : n -> bytes -> bytes
+
+val skipnN : n -> bytes -> bytes
+
+val lenN : bytes -> n
+
+type src = { bbuf : bytes; lo : bytes; segs0 : bytes list; sfuel : nat }
+
+val mk_src : bytes -> bytes list -> src
+
+val src_rest : src -> bytes
+
+val stream_read : n -> bytes list -> bytes * bytes list
+
+val inner_read : n -> bytes -> bytes list -> (bytes * bytes) * bytes list
+
+val fill_buf : src -> src
+
+val consume : n -> src -> src
+
+val buf_read : n -> src -> bytes * src
+
+val read_exact_loop : nat -> n -> src -> bytes -> (bytes * src) option
+
+val read_exact : n -> src -> (bytes * src) option
+
+val read_until_lf : nat -> src -> bytes -> bytes * src
+
+type ioerr =
+| EUnexpectedEof
+| EInvalidData
+
+val read_line : src -> (bytes, ioerr) sum * src
+
+type fixed = { f_src : src; f_remaining : n }
+
+type 's rres0 =
+| ROk of bytes * 's
+| RErr of ioerr * 's
+
+val fixed_read : n -> fixed -> fixed rres0
+
+val fixed_fill_buf : fixed -> fixed rres0
+
+val fixed_consume : n -> fixed -> fixed
+
+type cstate =
+| CSize
+| CData
+| CCrlf
+| CTrailer
+| CDone
+
+type chunked0 = { c_src : src; c_state : cstate; c_remaining : n }
+
+val is_hexdigit : byte -> bool
+
+val hexval : byte -> n
+
+val uSIZE_MAX : n
+
+val parse_hex : n -> bytes -> n option
+
+val strip_suffix_byte : byte -> bytes -> bytes option
+
+val read_chunk_size : chunked0 -> chunked0 rres0
+
+val trailer_loop : nat -> src -> ioerr option * src
+
+val advance : nat -> chunked0 -> chunked0 rres0
+
+val adv_fuel : chunked0 -> nat
+
+val chunked_read_loop : nat -> n -> chunked0 -> bytes -> chunked0 rres0
+
+val chunked_read : n -> chunked0 -> chunked0 rres0
+
+val chunked_fill_buf : chunked0 -> chunked0 rres0
+
+val chunked_consume : n -> chunked0 -> chunked0
+
+type body =
+| BFixed of fixed
+| BChunked of chunked0
+| BEof of src
+| BEmpty of src
+
+val new_fixed : bytes -> bytes list -> n -> body
+
+val new_chunked : bytes -> bytes list -> body
+
+val new_eof : bytes -> bytes list -> body
+
+val new_empty : bytes -> bytes list -> body
+
+val lift : ('a1 -> body) -> 'a1 rres0 -> body rres0
+
+val body_read : n -> body -> body rres0
+
+val body_fill_buf : body -> body rres0
+
+val body_consume : n -> body -> body
+
+val body_src : body -> src
+
+type outcome =
+| AtEof
+| Failed of ioerr
+| More
+
+val read_all : body -> n list -> bytes -> (bytes * outcome) * body
+
+val bufread_all : body -> n list -> bytes -> (bytes * outcome) * body
+
+val drain : nat -> body -> body
+
+val hexdig : byte -> bool
+
+val hexdig_val : byte -> n
+
+val hex_value : bytes -> n
+
+val text_byte : byte -> bool
+
+val wf_ext : bytes -> bool
+
+type why =
+| Truncated
+| BadSize
+| BadChunkEnd
+
+type dres =
+| Valid of bytes * bytes
+| Invalid of why
+| Unspecified
+
+val to_lf : bytes -> (bytes * bytes) option
+
+val line_crlf : bytes -> (bytes option * bytes) option
+
+val take_while : (byte -> bool) -> bytes -> bytes * bytes
+
+val dec_trailers : nat -> bytes -> bytes option option
+
+val take_n : n -> bytes -> (bytes * bytes) option
+
+val dec_chunks : nat -> bytes -> bytes -> dres
+
+val spec_decode : bytes -> dres
+
+val spec_fixed : n -> bytes -> dres
